@@ -304,8 +304,63 @@ class Maps:
         return "select{%s}" % "; ".join("%s => %s" % (" & ".join(g) or "otherwise", v)
                                         for g, v in sorted(alts))
 
+    def _bool_join(self, local, truth):
+        """`let c = a || b;` / `let c = a && b;` lower to a two-definition boolean (a constant on the short-circuit
+        edge, the second operand on the other). Returns the tested value as a conjunction "x & y" when the observed
+        truth allows one: `!c` for an OR-join is `!a & !b`, `c` for an AND-join is `a & b`; None otherwise."""
+        import guards as G_
+        defs = self.du.defs.get(local, [])
+        if len(defs) != 2:
+            return None
+        const = [(bi, x) for k, bi, x in defs if k == "stmt" and x.rv.kind == "use" and x.rv.ops[0].kind == "const" and
+                 x.rv.ops[0].info.get("v") in (0, 1)]
+        other = [(bi, x, k) for k, bi, x in defs if not (k == "stmt" and x.rv.kind == "use" and x.rv.ops[0].kind == "const")]
+        if len(const) != 1 or len(other) != 1 or not (other[0][2] == "call" or (other[0][2] == "stmt" and other[0][1].rv.kind == "use")):
+            return None
+        cv = bool(const[0][1].rv.ops[0].info["v"])
+        ec_c = G_.edge_conditions(self.b, const[0][0])
+        ec_o = G_.edge_conditions(self.b, other[0][0])
+        only_c = [e for e in ec_c if e not in ec_o]
+        only_o = [e for e in ec_o if e not in ec_c]
+        if len(only_c) != 1 or len(only_o) != 1 or only_c[0][0] != only_o[0][0]:
+            return None
+        sw = only_c[0][0]
+        a_true_on_const = G_.truth(self.b.blocks[sw].term, only_c[0][1])
+        if a_true_on_const is None:
+            return None
+        a = self.describe(self.du.origin(self.b.blocks[sw].term.discr), 3)
+        if other[0][2] == "call":
+            ce = other[0][1].callee
+            b_ = self.describe(("call", ce.target_p() if ce.indirect is None else "?",
+                                [self.du.origin(a_) for a_ in other[0][1].args]), 3)
+        else:
+            b_ = self.describe(self.du.origin(other[0][1].rv.ops[0]), 3)
+        if " & " in a or " & " in b_ or "select{" in a or "select{" in b_:
+            return None
+        neg = lambda x: x[1:] if x.startswith("!") else "!" + x
+        if cv and a_true_on_const and truth is False:          # c = a || b, observed false
+            return "%s & %s" % (neg(a), neg(b_))
+        if (not cv) and (not a_true_on_const) and truth is True:   # c = a && b, observed true
+            return "%s & %s" % (a, b_)
+        if cv and a_true_on_const and truth is True:           # c = a || b, observed true: one atom, a disjunction
+            return "(%s | %s)" % (a, b_)
+        if (not cv) and (not a_true_on_const) and truth is False:  # c = a && b, observed false
+            return "(%s | %s)" % (neg(a), neg(b_))
+        return None
+
     def _render_edge(self, sw, v):
         t = self.b.blocks[sw].term
+        o_ = self.du.origin(t.discr)
+        if o_[0] == "local":
+            vals = [a for a, _t in t.arms]
+            tr = (v != 0) if v in (0, 1) else (True if (v == "else" and vals == [0]) else (False if (v == "else" and vals == [1]) else None))
+            if tr is not None:
+                j = self._bool_join(o_[1], tr)
+                if j is not None:
+                    return j
+            nm = self.b.local_name(o_[1])
+            if nm and len(self.du.defs.get(o_[1], [])) > 1:
+                return ("!" if tr is False else "") + nm if tr is not None else "%s==%s" % (nm, v)
         cond = self.describe(self.du.origin(t.discr), 3)
         if v == 0:
             return "!" + cond
@@ -381,14 +436,7 @@ class Maps:
                       and tb in self.feasible and self._edge_only(sw, tb)]
             live = [v for v, tb in arms if tb is not None and tb in self.feasible]
             if len(inside) == 1 and len(live) > 1:
-                cond = self.describe(self.du.origin(t.discr), 3)
-                v = inside[0]
-                if v == 0:
-                    out.append("!" + cond)
-                elif v == "else" and [a for a, _t in t.arms] == [0]:
-                    out.append(cond)
-                else:
-                    out.append("%s==%s" % (cond, v))
+                out.append(self._render_edge(sw, inside[0]))
             cur = sw
         return tuple(reversed(out))
 
